@@ -15,7 +15,8 @@ Layers (all decided by the specification + TLC + conformance with the real code)
 """
 import json
 import os
-import shutil
+import subprocess
+import sys
 from concurrent.futures import ThreadPoolExecutor
 
 import vlib
@@ -83,6 +84,48 @@ def rx_universe(mx, rich):
     else:
         good = sorted({8, mx - 7, mx})
     return {"InjGood": good, "InjUndec": [20], "InjShort": [7], "InjOver": [mx + 1]}
+
+
+class ReplayPipe:
+    """TLC's REPLAY lines are piped straight into replay_channel (no behaviour file: a thorough run prints GBs)."""
+
+    def __init__(self, binary, out_path, threads):
+        self.out_path = out_path
+        self.out = open(out_path, "wb")
+        self.p = subprocess.Popen([binary, "--threads", str(threads)], stdin=subprocess.PIPE, stdout=self.out,
+                                  stderr=subprocess.PIPE)
+        self.n = 0
+
+    def write(self, obj):
+        try:
+            self.p.stdin.write((json.dumps(obj, separators=(",", ":")) + "\n").encode())
+            self.n += 1
+        except (BrokenPipeError, ValueError):
+            pass
+
+    def finish(self, timeout=1500):
+        try:
+            self.p.stdin.close()
+        except OSError:
+            pass
+        try:
+            err = self.p.stderr.read()
+            rc = self.p.wait(timeout=timeout)
+        except subprocess.TimeoutExpired:
+            self.p.kill()
+            raise vlib.ToolError("replay_channel timed out")
+        self.out.close()
+        if rc != 0:
+            sys.stderr.write(err.decode("utf-8", "replace")[-3000:])
+            raise vlib.ToolError("replay_channel exited %s" % rc)
+        res = []
+        for line in open(self.out_path, "rb").read().decode("utf-8", "replace").splitlines():
+            if line.startswith("{"):
+                try:
+                    res.append(json.loads(line))
+                except ValueError:
+                    pass
+        return res
 
 
 def check_model(rep, r, what):
@@ -207,7 +250,6 @@ def run(tier, replay=None):
 
     # ---- 3. S->I generator --------------------------------------------------------------------------
     gens = [(16, 64, seed), (12, 40, seed + 1000)] + ([(16, 32, seed + 2000), (24, 64, seed + 3000)] if thorough else [])
-    gen_files = []
     gen_jobs = []
     for (gi, gm, gs) in gens:
         cfg = write_cfg(wd, "gen_%d_%d.cfg" % (gi, gm), "GenSpec", dict(
@@ -215,17 +257,12 @@ def run(tier, replay=None):
             MaxInFlight=4, Bounded=True, Record=True, History=False, Depth=80, Deviations=devs,
             InjGood=sorted({8, 10, gi, gi + 1, gm // 2 + 1, gm - 8, gm - 7, gm - 1, gm}),
             InjUndec=[9, 20, gm], InjShort=[0, 7], InjOver=[gm + 1, gm + 8]), invariants="EmitHist")
-        path = os.path.join(wd, "behaviours_%d_%d.ndjson" % (gi, gm))
-        gen_files.append(path)
-        fh = open(path, "w")
-
-        def gen(cfg=cfg, fh=fh, gs=gs):
-            try:
-                return vlib.tlc("Channel", cfg, PID, workers=4 if thorough else 3, timeout=1500,
-                                simulate="num=%d" % (2500 if thorough else 350), depth=81, want_replay=True,
-                                replay_sink=lambda o: fh.write(json.dumps(o) + "\n"))
-            finally:
-                fh.close()
+        def gen(cfg=cfg, gi=gi, gm=gm):
+            pipe = ReplayPipe(build.result()["replay_channel"], os.path.join(wd, "replay_%d_%d.out" % (gi, gm)), 6)
+            g = vlib.tlc("Channel", cfg, PID, workers=4 if thorough else 3, timeout=1500,
+                         simulate="num=%d" % (1200 if thorough else 350), depth=81, want_replay=True,
+                         replay_sink=pipe.write)
+            return g, pipe.finish()
         gen_jobs.append(pool.submit(gen))
 
     # ---- 3b. transition tables: every buffer state x every argument of the four step functions
@@ -235,16 +272,10 @@ def run(tier, replay=None):
             geometry(gi, gm), Scope="e2e", WriteSizes=frame_sizes(gi, gm, True),
             InjGood=[8] + list(range(10, gm + 1)), InjUndec=list(range(9, gm + 1)), InjShort=list(range(0, 8)),
             InjOver=[gm + 1, gm + 8], Deviations=devs), invariants="EmitTables")
-        path = os.path.join(wd, "tables_%d_%d.ndjson" % (gi, gm))
-        gen_files.append(path)
-        fh = open(path, "w")
-
-        def tab(cfg=cfg, fh=fh):
-            try:
-                return vlib.tlc("Channel", cfg, PID, workers=2, timeout=1500, want_replay=True,
-                                replay_sink=lambda o: fh.write(json.dumps(o) + "\n"))
-            finally:
-                fh.close()
+        def tab(cfg=cfg, gi=gi, gm=gm):
+            pipe = ReplayPipe(build.result()["replay_channel"], os.path.join(wd, "replay_tab_%d_%d.out" % (gi, gm)), 4)
+            g = vlib.tlc("Channel", cfg, PID, workers=2, timeout=1500, want_replay=True, replay_sink=pipe.write)
+            return g, pipe.finish()
         gen_jobs.append(pool.submit(tab))
 
     # ---- 4. I->S driver ---------------------------------------------------------------------------------
@@ -283,18 +314,22 @@ def run(tier, replay=None):
     n_tables = 0
     n_rows = 0
     classes = set()
-    for fut, path in zip(gen_jobs, gen_files):
-        g = fut.result()
+    sample_beh = None
+    for fut in gen_jobs:
+        g, out = fut.result()
         rep.add_tlc(g)
         if g["violated"]:
             raise vlib.ToolError("generator run reported a violation: %s" % g["violated"])
         if g["n_replays"] == 0:
             raise vlib.ToolError("generator produced no behaviour")
-        out = vlib.run_harness(bins["replay_channel"], ["--threads", "12"], stdin_path=path, timeout=1500)
         summ = [o for o in out if o.get("kind") == "summary"]
         if not summ:
             raise vlib.ToolError("replay_channel produced no summary")
         summ = summ[0]
+        if summ["behaviours"] + summ.get("tables", 0) != g["n_replays"]:
+            raise vlib.ToolError("replay_channel executed %d of %d behaviours" % (summ["behaviours"] + summ.get("tables", 0), g["n_replays"]))
+        if sample_beh is None and summ.get("first_behaviour"):
+            sample_beh = summ["first_behaviour"]
         n_beh += summ["behaviours"]
         n_trans += summ["distinct_transitions"] + summ.get("table_rows", 0)
         n_tables += summ.get("tables", 0)
@@ -315,15 +350,13 @@ def run(tier, replay=None):
             rep.violation(v["class"], "; ".join(v["problems"])[:380], v,
                           name="behaviour_%s_%s_%d.json" % (v["class"], v["op"].get("op"), len(rep.violations)))
     # one replayed behaviour, compactly, as a sample
-    try:
-        b = json.loads(open(gen_files[0]).readline())
+    if sample_beh:
         def show(st):
             a = st.get("len", st.get("chunks", st.get("k", "")))
             return "%s(%s)%s" % (st["op"], a, ("->" + st["res"]) if st.get("res") else "")
         rep.add_samples(["behaviour init=%d max=%d: %s ... final %s" % (
-            b["init"], b["max"], " ".join(show(x) for x in b["steps"][:28]), json.dumps(b["steps"][-1]["st"]))], 1)
-    except (ValueError, KeyError, IndexError, OSError):
-        pass
+            sample_beh["init"], sample_beh["max"], " ".join(show(x) for x in sample_beh["steps"][:28]),
+            json.dumps(sample_beh["steps"][-1]["st"]))], 1)
     need = {"Write/ok", "Write/too_large", "Writable/ok", "Readable/ok", "ReadMessage/ok", "ReadMessage/nothing_read",
             "ReadMessage/under_delimiter", "ReadMessage/invalid_protobuf", "ReadMessage/too_large", "Inject/", "WireMove/"}
     if not rep.violations and (n_tables == 0 or n_rows == 0):
